@@ -55,25 +55,64 @@ Lemma pl_cmdline_proc c r :
   pl_cmdline c (view_proc r) = pl_cmdline c (view_cmd (p_cmd r) false).
 Proof. apply pl_cmdline_ext; reflexivity. Qed.
 
+(* isabs, isfile and access(X_OK) together = "an absolute path to an executable regular file" *)
+Lemma guess_oracle r a0 :
+  prefixb [47] a0 && isfile (view_proc r) a0 && access_x (view_proc r) a0 = exec_file (p_paths r) a0.
+Proof.
+  unfold isfile, access_x, exec_file. cbn [view_proc v_paths].
+  destruct (prefixb [47] a0); [|reflexivity]. cbn [andb].
+  destruct (path_kind (p_paths r) a0) as [[| |]|]; reflexivity.
+Qed.
+
+Lemma guess_it_proc c r fb :
+  wf_cmd (p_cmd r) = true -> (nl_translate c = true -> cmd_no_cr (p_cmd r) = true) ->
+  guess_it c (view_proc r) fb =
+  match spec_cmdline (p_cmd r) with
+  | a0 :: _ => if exec_file (p_paths r) a0 then Val a0 else fb
+  | [] => fb
+  end.
+Proof.
+  intros Hcmd Hcr. unfold guess_it. rewrite pl_cmdline_proc, cmdline_live_spec by assumption.
+  destruct (spec_cmdline (p_cmd r)) as [|a0 rest]; [reflexivity|].
+  now rewrite guess_oracle.
+Qed.
+
+(* what self._exe holds after the first call *)
+Definition spec_state (r : kproc) : option bytes :=
+  if spec_cached r then match spec_exe r with Val e => Some e | _ => None end else None.
+
 Lemma exe_spec : forall c r,
   wf_proc r = true -> (nl_translate c = true -> cmd_no_cr (p_cmd r) = true) ->
-  fe_exe c None (view_proc r) = (Val (spec_exe r), Some (spec_exe r)).
+  fe_exe c None (view_proc r) = (spec_exe r, spec_state r).
 Proof.
   intros c r Hwf Hcr. unfold wf_proc in Hwf.
   apply andb_true_iff in Hwf as [Hwf _]. apply andb_true_iff in Hwf as [Hcmd Hlink].
-  unfold fe_exe, pl_exe, spec_exe.
+  unfold fe_exe, pl_exe, spec_state, spec_cached, spec_exe.
   destruct (p_exe r) as [l|] eqn:El.
   - cbn [view_proc v_exe]. rewrite El. rewrite link_cleanup by exact Hlink.
     unfold wf_link in Hlink. apply andb_true_iff in Hlink as [Hl _]. apply andb_true_iff in Hl as [_ Hne].
     destruct (l_path l); [discriminate|reflexivity].
-  - assert (Hw : pl_readlink (view_proc r) (v_exe (view_proc r)) = Val []).
-    { rewrite link_withheld; [reflexivity| |reflexivity].
-      cbn [view_proc v_exe]. rewrite El. destruct (p_esrch r); reflexivity. }
-    rewrite Hw. unfold guess_it. rewrite pl_cmdline_proc.
-    rewrite cmdline_live_spec by assumption.
-    destruct (spec_cmdline (p_cmd r)) as [|a0 rest]; [reflexivity|].
-    unfold xfile. cbn [view_proc v_xfiles].
-    destruct (prefixb [47] a0 && existsb (beqb a0) (p_xfiles r)); reflexivity.
+  - destruct (p_how r) eqn:Eh.
+    + assert (Hw : pl_readlink (view_proc r) (v_exe (view_proc r)) = Val []).
+      { rewrite link_withheld; [reflexivity| |reflexivity]. cbn [view_proc v_exe]. now rewrite El, Eh. }
+      rewrite Hw, guess_it_proc by assumption.
+      destruct (spec_cmdline (p_cmd r)) as [|a0 rest]; [reflexivity|].
+      destruct (exec_file (p_paths r) a0); reflexivity.
+    + assert (Hw : pl_readlink (view_proc r) (v_exe (view_proc r)) = Val []).
+      { rewrite link_withheld; [reflexivity| |reflexivity]. cbn [view_proc v_exe]. now rewrite El, Eh. }
+      rewrite Hw, guess_it_proc by assumption.
+      destruct (spec_cmdline (p_cmd r)) as [|a0 rest]; [reflexivity|].
+      destruct (exec_file (p_paths r) a0); reflexivity.
+    + assert (Hw : pl_readlink (view_proc r) (v_exe (view_proc r)) = Exc AccessDenied).
+      { cbn [view_proc v_exe]. now rewrite El, Eh. }
+      rewrite Hw, guess_it_proc by assumption. reflexivity.
+Qed.
+
+Lemma spec_exe_val r : spec_cached r = true -> exists e, spec_exe r = Val e.
+Proof.
+  unfold spec_cached, spec_exe. destruct (p_exe r); [eauto|].
+  destruct (p_how r); try discriminate; intros _;
+    (destruct (spec_cmdline (p_cmd r)) as [|a0 rest]; [eauto|]; destruct (exec_file (p_paths r) a0); eauto).
 Qed.
 
 Lemma exe_cached : forall c e v', fe_exe c (Some e) v' = (Val e, Some e).
@@ -97,9 +136,21 @@ Qed.
 
 Lemma exe_fallback_and_cache : forall c r v',
   wf_proc r = true -> (nl_translate c = true -> cmd_no_cr (p_cmd r) = true) ->
-  fe_exe c None (view_proc r) = (Val (spec_exe r), Some (spec_exe r))
-  /\ fe_exe c (Some (spec_exe r)) v' = (Val (spec_exe r), Some (spec_exe r)).
-Proof. intros c r v' H1 H2. split; [now apply exe_spec|apply exe_cached]. Qed.
+  spec_cached r = true ->
+  exists e, spec_exe r = Val e
+            /\ fe_exe c None (view_proc r) = (Val e, Some e)
+            /\ fe_exe c (Some e) v' = (Val e, Some e).
+Proof.
+  intros c r v' H1 H2 H3. destruct (spec_exe_val r H3) as [e He]. exists e.
+  split; [exact He|]. split; [|apply exe_cached].
+  rewrite exe_spec by assumption. unfold spec_state. now rewrite H3, He.
+Qed.
+
+Lemma exe_denied : forall c r,
+  wf_proc r = true -> (nl_translate c = true -> cmd_no_cr (p_cmd r) = true) ->
+  spec_cached r = false ->
+  fe_exe c None (view_proc r) = (spec_exe r, None).
+Proof. intros c r H1 H2 H3. rewrite exe_spec by assumption. unfold spec_state. now rewrite H3. Qed.
 
 Lemma exe_answer_is_cached_full : forall c v e st,
   fe_exe c None v = (Val e, st) -> pl_exe v <> Exc AccessDenied ->
@@ -110,10 +161,32 @@ Proof.
 Qed.
 
 Lemma exe_fallback_and_cache_now : forall r v',
-  wf_proc r = true ->
-  fe_exe now None (view_proc r) = (Val (spec_exe r), Some (spec_exe r))
-  /\ fe_exe now (Some (spec_exe r)) v' = (Val (spec_exe r), Some (spec_exe r)).
-Proof. intros r v' H1. apply exe_fallback_and_cache; auto. intros H; discriminate H. Qed.
+  wf_proc r = true -> spec_cached r = true ->
+  exists e, spec_exe r = Val e
+            /\ fe_exe now None (view_proc r) = (Val e, Some e)
+            /\ fe_exe now (Some e) v' = (Val e, Some e).
+Proof. intros r v' H1 H2. apply exe_fallback_and_cache; auto. intros H; discriminate H. Qed.
+
+Lemma exe_denied_now : forall r,
+  wf_proc r = true -> spec_cached r = false ->
+  fe_exe now None (view_proc r) = (spec_exe r, None).
+Proof. intros r H1 H2. apply exe_denied; auto. intros H; discriminate H. Qed.
+
+(* the three tests are each needed: a searchable directory, a file without x bit and a
+   relative path to an executable are all refused *)
+Example exe_fallback_example :
+  let ps := [(bs "/", PDir); (bs "/opt/bin", PDir); (bs "/opt/bin/data", PReg); (bs "/opt/bin/prog", PRegX); (bs "prog", PRegX)] in
+  let r a0 how := {| p_comm := bs "prog"; p_cmd := KArgv [a0; bs "-x"]; p_exe := None; p_how := how; p_paths := ps |} in
+  spec_exe (r (bs "/opt/bin/prog") WENOENT) = Val (bs "/opt/bin/prog")
+  /\ spec_exe (r (bs "/opt/bin") WENOENT) = Val []
+  /\ spec_exe (r (bs "/") WESRCH) = Val []
+  /\ spec_exe (r (bs "/opt/bin/data") WENOENT) = Val []
+  /\ spec_exe (r (bs "/opt/bin/nothing") WENOENT) = Val []
+  /\ spec_exe (r (bs "prog") WENOENT) = Val []
+  /\ spec_exe (r (bs "/opt/bin") WEACCES) = Exc AccessDenied
+  /\ spec_exe (r (bs "/opt/bin/prog") WEACCES) = Val (bs "/opt/bin/prog")
+  /\ wf_proc (r (bs "/opt/bin") WEACCES) = true /\ spec_cached (r (bs "/opt/bin") WEACCES) = false.
+Proof. cbv zeta. repeat split. Qed.
 
 (* ---------------------------------------------------------------- name() *)
 Lemma name_long_ascii c comm :
@@ -178,7 +251,7 @@ Lemma name_multibyte_refuted :
 Proof.
   exists {| p_comm := bs "abcdefghijklm" ++ [195; 169];
             p_cmd := KArgv [bs "/usr/bin/abcdefghijklm" ++ [195; 169] ++ bs "-daemon"; bs "--fg"];
-            p_exe := None; p_esrch := false; p_xfiles := [] |}.
+            p_exe := None; p_how := WENOENT; p_paths := [] |}.
   split; [reflexivity|]. split; [reflexivity|]. split; [reflexivity|].
   split; [vm_compute; reflexivity|]. vm_compute. congruence.
 Qed.
@@ -192,7 +265,7 @@ Lemma name_cut_char_refuted :
 Proof.
   exists {| p_comm := bs "abcdefghijklmn" ++ [195];
             p_cmd := KArgv [bs "abcdefghijklmn" ++ [195; 169] ++ bs "z"];
-            p_exe := None; p_esrch := false; p_xfiles := [] |}.
+            p_exe := None; p_how := WENOENT; p_paths := [] |}.
   split; [reflexivity|]. split; [reflexivity|]. split; [reflexivity|]. split; [reflexivity|].
   split; [vm_compute; reflexivity|]. vm_compute. congruence.
 Qed.
@@ -205,7 +278,7 @@ Proof. split; reflexivity. Qed.
 Example proc_example :
   let r := {| p_comm := bs "gnome-keyring-d";
               p_cmd := KArgv [bs "/usr/bin/gnome-keyring-daemon"; bs "--daemonize"];
-              p_exe := None; p_esrch := true; p_xfiles := [bs "/usr/bin/gnome-keyring-daemon"] |} in
+              p_exe := None; p_how := WESRCH; p_paths := [(bs "/usr/bin/gnome-keyring-daemon", PRegX)] |} in
   wf_proc r = true /\ cmd_no_cr (p_cmd r) = true /\ is_ascii (p_comm r) = true
-  /\ spec_name r = bs "gnome-keyring-daemon" /\ spec_exe r = bs "/usr/bin/gnome-keyring-daemon".
+  /\ spec_name r = bs "gnome-keyring-daemon" /\ spec_exe r = Val (bs "/usr/bin/gnome-keyring-daemon").
 Proof. cbv zeta. repeat split. Qed.
